@@ -483,7 +483,7 @@ func main() {
 				case "alloc":
 					// the native run either dies under the memory limit or survives a huge
 					// allocation; both confirm the size computation — measured separately
-					confirmed = status == "crash" || status == "panic" || nativeAllocExceeded(nr[0])
+					confirmed = status == "crash" || status == "panic" || (status == "fail" && containsStr(nr[0].Failures, "alloc-bound"))
 				case "blocked":
 					confirmed = status == "crash"
 				}
